@@ -43,6 +43,9 @@ type swarmScenario struct {
 	nStreams int
 	actions  []swarmAction
 	closeAt  [2]int // ms; when each swarm is closed
+	// swarm-level gaters: InterceptUpgraded takes this long (ms) and may reject
+	upgDelay  [2]int
+	upgReject [2]bool
 }
 
 type swarmAction struct {
@@ -67,11 +70,20 @@ func drawSwarmScenario(rt *rapid.T) *swarmScenario {
 	for i := 0; i < na; i++ {
 		sc.actions = append(sc.actions, swarmAction{
 			at:   rapid.SampledFrom([]int{0, 1, 3, 6, 10, 20, 40, 80}).Draw(rt, "at"),
-			kind: rapid.SampledFrom([]string{"closeConn", "closePeer", "openStream", "resetStream", "serverClosePeer"}).Draw(rt, "kind"),
+			kind: rapid.SampledFrom([]string{"closeConn", "closePeer", "openStream", "resetStream", "serverClosePeer", "serverCloseWithError", "clientHangup"}).Draw(rt, "kind"),
 		})
 	}
-	sc.closeAt[0] = rapid.SampledFrom([]int{2, 5, 12, 30, 100, 400}).Draw(rt, "closeClient")
-	sc.closeAt[1] = rapid.SampledFrom([]int{2, 5, 12, 30, 100, 400}).Draw(rt, "closeServer")
+	for i := 0; i < 2; i++ {
+		if rapid.Bool().Draw(rt, "fineClose") {
+			sc.closeAt[i] = rapid.IntRange(0, 70).Draw(rt, "closeFine") // around the end of the handshake
+		} else {
+			sc.closeAt[i] = rapid.SampledFrom([]int{2, 5, 12, 30, 100, 400}).Draw(rt, "close")
+		}
+		if rapid.IntRange(0, 2).Draw(rt, "gater?") == 0 {
+			sc.upgDelay[i] = rapid.SampledFrom([]int{0, 3, 10, 30}).Draw(rt, "upgDelay")
+			sc.upgReject[i] = rapid.IntRange(0, 2).Draw(rt, "upgReject") == 0
+		}
+	}
 	return sc
 }
 
@@ -80,8 +92,8 @@ func (sc *swarmScenario) String() string {
 	for _, a := range sc.actions {
 		as = append(as, fmt.Sprintf("%s@%d", a.kind, a.at))
 	}
-	return fmt.Sprintf("%s io=%s/op%d/%s ref=%s/%s#%d streams=%d actions=[%s] close=%v", sc.cfg, sc.ioSide, sc.ioK, sc.ioKind, sc.refSide, sc.refHook, sc.refN, sc.nStreams,
-		strings.Join(as, " "), sc.closeAt)
+	return fmt.Sprintf("%s io=%s/op%d/%s ref=%s/%s#%d streams=%d actions=[%s] close=%v upgradedGater(delay=%v reject=%v)", sc.cfg, sc.ioSide, sc.ioK, sc.ioKind, sc.refSide, sc.refHook, sc.refN, sc.nStreams,
+		strings.Join(as, " "), sc.closeAt, sc.upgDelay, sc.upgReject)
 }
 
 func TestSwarmPair(t *testing.T) {
@@ -133,8 +145,15 @@ func TestSwarmPair(t *testing.T) {
 					rt.Fatalf("peerstore: %v", err)
 				}
 				defer ps.Close()
-				sw, err := swarm.NewSwarm(n.id.ID, ps, eventbus.NewBus(), swarm.WithResourceManager(n.rm),
-					swarm.WithUDPBlackHoleSuccessCounter(nil), swarm.WithIPv6BlackHoleSuccessCounter(nil))
+				opts := []swarm.Option{swarm.WithResourceManager(n.rm), swarm.WithUDPBlackHoleSuccessCounter(nil), swarm.WithIPv6BlackHoleSuccessCounter(nil)}
+				if sc.upgDelay[i] > 0 || sc.upgReject[i] {
+					g := &gater{upgradedDelay: time.Duration(sc.upgDelay[i]) * time.Millisecond}
+					if sc.upgReject[i] {
+						g.hook = "InterceptUpgraded"
+					}
+					opts = append(opts, swarm.WithConnectionGater(g))
+				}
+				sw, err := swarm.NewSwarm(n.id.ID, ps, eventbus.NewBus(), opts...)
 				if err != nil {
 					rt.Fatalf("swarm: %v", err)
 				}
@@ -236,6 +255,20 @@ func TestSwarmPair(t *testing.T) {
 					at(a.at, func() { sws[0].ClosePeer(server.id.ID) })
 				case "serverClosePeer":
 					at(a.at, func() { sws[1].ClosePeer(client.id.ID) })
+				case "serverCloseWithError": // what a connection-manager trim does
+					at(a.at, func() {
+						for _, c := range sws[1].ConnsToPeer(client.id.ID) {
+							c.CloseWithError(network.ConnGarbageCollected)
+						}
+					})
+				case "clientHangup": // the raw connection dies under the client
+					at(a.at, func() {
+						for _, p := range nw.Pairs() {
+							if p.Client != nil {
+								p.Client.Close()
+							}
+						}
+					})
 				case "openStream":
 					at(a.at, openStream)
 				case "resetStream":
